@@ -6,6 +6,7 @@ import Genshi.Model.TmplText
 import Genshi.Model.TmplScan
 import Genshi.Model.TmplRaw
 import Genshi.Model.TmplPrint
+import Genshi.Model.TmplScanD
 namespace Driver.C04
 open Genshi Genshi.Tmpl Genshi.Sexp
 
@@ -205,6 +206,15 @@ def handleScan : List Sexp → Option Sexp
       some (.list [.list ((Scan.scanNew src).map rtokS), parsedS (Scan.parseToks Scan.stepNew ⟨0, [], []⟩ (Scan.scanNew src))])
   | [.atom "rawold", .str src] =>
       some (.list [.list ((Scan.scanOld src).map otokS), parsedS (Scan.parseToks Scan.stepOld ⟨0, [], []⟩ (Scan.scanOld src))])
+  | [.atom "rawnewd", .str sd, .str ed, .str sc, .str ec, .str src] =>
+      -- NewTextTemplate(source, delims=(sd, ed, sc, ec)): tokens + parsed stream, inside the side condition
+      let d : ScanD.Delims := ⟨sd, ed, sc, ec⟩
+      if !d.ok then some (.atom "unmodelled") else
+      let toks := ScanD.scanD d src
+      some (.list [.list (toks.map fun
+              | .text r => .list [.atom "T", .str r, .str (ScanD.unescapeD d r)]
+              | t => rtokS t),
+            parsedS (Scan.parseToks (ScanD.stepD d) ⟨0, [], []⟩ toks)])
   | [.atom "printnew", .list toks] => do
       let toks ← toks.mapM fun
         | .list [.atom "T", .str s] => some (Scan.CTok.text s)
